@@ -27,3 +27,18 @@ Theorem C07_digest_verification_changes_nothing_with_repairs_off :
     validate_digest tbl uni_lower H b32 b64 o rt hs b bd pd cached fnd = Ok hs' fnd' -> hs' = hs.
 Proof. exact validate_digest_repairs_off. Qed.
 Print Assumptions C07_digest_verification_changes_nothing_with_repairs_off.
+
+(** the block clause: a record that the parser returns clean (no error) and without any finding,
+    under a spec policy above ignore, has a block of exactly the declared length: the block is
+    never silently empty or shortened (with the spec policy at ignore the check is off and a stream
+    that ends early goes unnoticed: known finding short-stream-under-ignore) *)
+Require Import Gen.FieldTable Model.Stream Proofs.BuildProofs.
+Theorem C07_clean_record_carries_a_block_of_the_declared_length :
+  forall uni_lower uni_upper time_ok ip_ok uri_ok wid_ok mime_dec H b32 b64 http_req_ok http_resp_ok o s r s',
+    policy_gt_ignore (o_spec o) = true ->
+    parse_record field_table required_fields uni_lower uni_upper time_ok ip_ok uri_ok wid_ok mime_dec H b32 b64
+                 http_req_ok http_resp_ok o s [] = URec r None [] s' ->
+    m_has field_table uni_lower n_content_length (r_fields r) = true ->
+    m_get field_table uni_lower n_content_length (r_fields r) = itoa (Z.of_nat (length (raw_bytes (r_block r)))).
+Proof. intros. eapply clean_record_has_declared_length; eassumption. Qed.
+Print Assumptions C07_clean_record_carries_a_block_of_the_declared_length.
